@@ -15,6 +15,7 @@ CONSTANTS
   Wiring = "split"
   TTLTicks = 3
   MaxTicks = 0
+  Faults = {}
   Emit = FALSE
 INIT Init
 NEXT Next
